@@ -43,7 +43,7 @@ def run_one(*a, **kw):
     return r
 
 
-def _run_one(mon, req, strings, threads, calls, yld, env, seed, ref=None, first=-1, fileeps=0):
+def _run_one(mon, req, strings, threads, calls, yld, env, seed, ref=None, first=-1, fileeps=0, perthread=False):
     d = tempfile.mkdtemp(prefix='xv-thr-')
     try:
         rq, st, rep = [os.path.join(d, x) for x in ('req', 'str', 'rep')]
@@ -62,7 +62,7 @@ def _run_one(mon, req, strings, threads, calls, yld, env, seed, ref=None, first=
         e['TSAN_OPTIONS'] = 'halt_on_error=0:exitcode=66:second_deadlock_stack=1:history_size=4:log_path=' + os.path.join(d, 'tsan')
         e.update(env)
         try:
-            p = subprocess.run([mon, 'run', rq, st, rep] + extra + ['--threads', str(threads), '--calls', str(calls), '--yield', str(yld), '--fileeps', str(fileeps)],
+            p = subprocess.run([mon, 'run', rq, st, rep] + extra + ['--threads', str(threads), '--calls', str(calls), '--yield', str(yld), '--fileeps', str(fileeps)] + (['--perthread-locale'] if perthread else []),
                                env=e, stdout=subprocess.PIPE, stderr=subprocess.STDOUT, timeout=3600)
         except subprocess.TimeoutExpired:
             return dict(watchdog=True)
@@ -147,7 +147,7 @@ def main(tier):
 
     def go(job):
         i, (cfg, fl, th, calls, yld, loc) = job
-        env = dict(LOCPATH=locdir, LC_ALL='xx_VERIF') if loc else dict(LC_ALL='C')
+        env = dict(LOCPATH=locdir, LC_ALL='xx_VERIF') if loc else dict(LC_ALL='C', LOCPATH=locdir)
         Q, S = queries[cfg]
         # ThreadSanitizer runs work on a seeded subset of ~400 requests so that every request is executed by several threads
         # many times (a race needs two threads in the SAME code); plain runs use the whole set
@@ -160,7 +160,7 @@ def main(tier):
         # every second run starts cold (first library calls of the process are concurrent; reference from another process)
         # second phase of every run: thread-private crystal arrays filled from files (Crystal_ReadFile), digests against serial ones
         feps = (150 if fl.endswith('tsan') else 2500) if tier == 'quick' else (400 if fl.endswith('tsan') else 8000)
-        return job, run_one(mons[(cfg, fl)], Q, S, th, calls, yld, env, ck.seed * 1000 + i, ref=ref if i % 2 else None, fileeps=feps)
+        return job, run_one(mons[(cfg, fl)], Q, S, th, calls, yld, env, ck.seed * 1000 + i, ref=ref if i % 2 else None, fileeps=feps, perthread=(i % 3 != 2))     # two runs in three: every second thread under its own numeric locale (uselocale)
     # TSan runs are CPU heavy (8-16 threads each): a few at a time
     with ThreadPoolExecutor(3) as ex:
         results = list(ex.map(go, list(enumerate(plan))))
@@ -213,6 +213,7 @@ def main(tier):
                 rep['file_mismatches'], rep['file_episodes'], rep['file_bad']), where)
         tot['file_episodes'] = tot.get('file_episodes', 0) + rep.get('file_episodes', 0)
         tot['runs_per_build'] = tot.get('runs_per_build', {}); tot['runs_per_build'][fl] = tot['runs_per_build'].get(fl, 0) + 1
+        tot['threads_with_own_locale'] = tot.get('threads_with_own_locale', 0) + rep.get('threads_with_their_own_numeric_locale', 0)
         tot['runs'] += 1; tot['cold'] = tot.get('cold', 0) + rep.get('cold', 0); tot['calls'] += rep['calls']; tot['events'] += rep['hook_events']; tot['yields'] += rep['yields']
         tot['failing'] += rep['failing_calls']; tot['errapi'] += rep['error_api_uses']
         for k in range(5):
@@ -228,7 +229,7 @@ def main(tier):
                     'parser, catalogue lookups, crystal copies + structure factors, error copy/propagate on private slots), ThreadSanitizer build and plain build, '
                     'C and comma-decimal locale, seeded yields at the library hook points; every result compared bit for bit with a serial reference; '
                     'distinct = distinct overlap signatures (region entered x set of regions other threads were inside) observed through the hooks',
-               samples=samples, runs=tot['runs'], runs_per_build=tot.get('runs_per_build'), cold_start_runs=tot.get('cold', 0), first_use_runs_one_per_entry_point=tot.get('first_use_runs', 0), hook_events=tot['events'], injected_yields=tot['yields'],
+               samples=samples, threads_run_under_their_own_numeric_locale=tot.get('threads_with_own_locale', 0), runs=tot['runs'], runs_per_build=tot.get('runs_per_build'), cold_start_runs=tot.get('cold', 0), first_use_runs_one_per_entry_point=tot.get('first_use_runs', 0), hook_events=tot['events'], injected_yields=tot['yields'],
                region_entries=dict(zip(REGION, tot['enter'])), entries_while_other_threads_inside=dict(zip(REGION, tot['overlap'])),
                private_crystal_file_episodes=tot.get('file_episodes', 0), overlap_signatures=tot['sigs'], failing_calls=tot['failing'], error_api_uses=tot['errapi'])
     return ck.finish(cov, ['TSan sees only instrumented code and intercepted libc calls', 'no thread mutates a shared crystal collection (documented exception)'])
